@@ -78,6 +78,19 @@ structure Params where
   daemon : Bool := true
   deriving DecidableEq, Repr, Inhabited
 
+/-- The registers of a controller thread (used for the SECOND controller; the first one's live
+    directly in `Cfg`, so that the single-controller proofs read as before). -/
+structure Ctl where
+  cpc : CPc := .done
+  g : GPhase := .none
+  todo : List Call := []
+  tgt : Nat := 0
+  cur : Option Call := none
+  lastRet : Option Call := none
+  nret : Nat := 0
+  cancelled : Option Nat := none
+  deriving DecidableEq, Repr, Inhabited
+
 structure Cfg where
   /-- `Monitor.thread`: index of the worker object, or `None` -/
   thread : Option Nat := none
@@ -96,6 +109,9 @@ structure Cfg where
   nret : Nat := 0
   /-- ghost: the worker cancelled by the `stop()` frame in progress -/
   cancelled : Option Nat := none
+  /-- a second controller thread whose calls OVERLAP those of the first (outside the property's
+      quantifier; idle unless `init2` gives it calls) -/
+  c2 : Ctl := {}
 
 instance : Inhabited Cfg := ⟨{}⟩
 
@@ -154,12 +170,17 @@ def stepCtl (p : Params) (c : Cfg) : Cfg :=
     | none => { c with cpc := .crashed }
     | some k =>
       match p.mode with
-      | .asIs => { setW c k { c.ws k with pc := .held } with cpc := .st9, tgt := k }
+      | .asIs =>
+        -- `Thread.start()` of a thread that was started already raises RuntimeError (only reachable
+        -- when a second controller overlaps)
+        if (c.ws k).pc = .created then { setW c k { c.ws k with pc := .held } with cpc := .st9, tgt := k }
+        else { c with cpc := .crashed }
       | .fixed => { c with cpc := .bs7, tgt := k }
   | .bs7 =>                        -- (fixed) self.running = True, in the starter thread
     { setW c c.tgt { c.ws c.tgt with running := true } with cpc := .bs8 }
-  | .bs8 =>                        -- (fixed) super().start()
-    { setW c c.tgt { c.ws c.tgt with pc := .held } with cpc := .st9 }
+  | .bs8 =>                        -- (fixed) super().start(); RuntimeError if started already
+    if (c.ws c.tgt).pc = .created then { setW c c.tgt { c.ws c.tgt with pc := .held } with cpc := .st9 }
+    else { c with cpc := .crashed }
   | .st9 => retStart c
   | .st11 => retStart c
   -- Monitor.stop
@@ -218,8 +239,24 @@ def stepW (p : Params) (c : Cfg) (i : Nat) (boom : Bool := false) : Cfg :=
                                crashed := boom }
   | .done => c
 
+/-- exchange the registers of the two controllers -/
+def swap (c : Cfg) : Cfg :=
+  { c with cpc := c.c2.cpc, g := c.c2.g, todo := c.c2.todo, tgt := c.c2.tgt, cur := c.c2.cur,
+           lastRet := c.c2.lastRet, nret := c.c2.nret, cancelled := c.c2.cancelled,
+           c2 := { cpc := c.cpc, g := c.g, todo := c.todo, tgt := c.tgt, cur := c.cur,
+                   lastRet := c.lastRet, nret := c.nret, cancelled := c.cancelled } }
+
+/-- one step (= one source line) of the second controller: the same code, its own registers -/
+def stepCtl2 (p : Params) (c : Cfg) : Cfg := swap (stepCtl p (swap c))
+
+/-- both controllers start their first call -/
+def init2 (calls calls2 : List Call) : Cfg :=
+  swap (enter { swap (init calls) with todo := calls2 })
+
 inductive Tid where
   | ctl
+  /-- the second controller (overlapping calls) -/
+  | ctl2
   | w (i : Nat)
   /-- a turn of worker `i` in which the callback, if it is invoked, raises -/
   | wx (i : Nat)
@@ -233,6 +270,12 @@ def enabled (c : Cfg) : Tid → Bool
     | .crashed => false
     | .sp11w => (c.ws c.tgt).pc = .done
     | _ => true
+  | .ctl2 =>
+    match c.c2.cpc with
+    | .done => false
+    | .crashed => false
+    | .sp11w => (c.ws c.c2.tgt).pc = .done
+    | _ => true
   | .w i => i < c.nw && (c.ws i).pc ≠ .created && (c.ws i).pc ≠ .done
   | .wx i => i < c.nw && (c.ws i).pc ≠ .created && (c.ws i).pc ≠ .done
 
@@ -241,6 +284,7 @@ def step (p : Params) (c : Cfg) (t : Tid) : Cfg :=
   if enabled c t then
     match t with
     | .ctl => stepCtl p c
+    | .ctl2 => stepCtl2 p c
     | .w i => stepW p c i
     | .wx i => stepW p c i true
   else c
@@ -279,6 +323,9 @@ structure Obs where
   nret : Nat
   crashed : Bool
   ws : List ObsW
+  /-- the second controller: calls returned, died -/
+  nret2 : Nat
+  crashed2 : Bool
   deriving DecidableEq, Repr, Inhabited
 
 def obsW (w : Worker) : ObsW :=
@@ -287,7 +334,8 @@ def obsW (w : Worker) : ObsW :=
 
 def obs (c : Cfg) : Obs :=
   { thread := c.thread, nret := c.nret, crashed := c.cpc == .crashed,
-    ws := (List.range c.nw).map fun i => obsW (c.ws i) }
+    ws := (List.range c.nw).map fun i => obsW (c.ws i),
+    nret2 := c.c2.nret, crashed2 := c.c2.cpc == .crashed }
 
 def ObsW.render (w : ObsW) : String := s!"{b01 w.started}{b01 w.running}{b01 w.done}{b01 w.crashed}:{w.calls}"
 
@@ -296,7 +344,7 @@ def Obs.render (o : Obs) : String :=
   let t := match o.thread with
     | none => "N"
     | some k => toString k
-  s!"T={t};R={o.nret};X={b01 o.crashed};W={"/".intercalate (o.ws.map ObsW.render)}"
+  s!"T={t};R={o.nret};X={b01 o.crashed};W={"/".intercalate (o.ws.map ObsW.render)};R2={o.nret2};X2={b01 o.crashed2}"
 
 def obsStr (c : Cfg) : String := (obs c).render
 
@@ -327,6 +375,6 @@ def keyStr (c : Cfg) : String :=
   let ws := (List.range c.nw).foldl (fun acc i =>
     let w := c.ws i
     acc ++ s!"{w.pc.code}.{b01 w.running}{b01 w.stopRet}{b01 w.crashed}{w.calls}.{w.after},") ""
-  s!"{optCode id c.thread}|{ws}|{c.cpc.code}|{c.g.code}|{c.todo.length}|{c.tgt}|{optCode Call.code c.cur}|{optCode Call.code c.lastRet}|{c.nret}|{optCode id c.cancelled}"
+  s!"{optCode id c.thread}|{ws}|{c.cpc.code}|{c.g.code}|{c.todo.length}|{c.tgt}|{optCode Call.code c.cur}|{optCode Call.code c.lastRet}|{c.nret}|{optCode id c.cancelled}|{c.c2.cpc.code}.{c.c2.g.code}.{c.c2.todo.length}.{c.c2.tgt}.{optCode Call.code c.c2.cur}.{optCode Call.code c.c2.lastRet}.{c.c2.nret}.{optCode id c.c2.cancelled}"
 
 end CpModel.Monitor
